@@ -1,11 +1,134 @@
 import StorageModel.Driver.Common
+import StorageModel.C12.Spec
+import StorageModel.C12.Lex
+import StorageModel.Generated.Grammar
 /- model driver for C12: `run spec` reads case lines on stdin and prints one output line per case
-   (spec = false: the engine model's output; spec = true: the spec's verdict). -/
-namespace StorageModel.Driver.C12
-open StorageModel.Driver
+   (spec = false: the engine model's output; spec = true: the spec's verdict).
 
-def step (_line : String) : String := "not-implemented"
-def specStep (_line : String) : String := "not-implemented"
+   k <n> <skeleton>
+       token skeleton in compact form: `a`..`y` boolean symbols (index = letter - 'a'), `z` a
+       symbol of string type, `T` `F` the BOOL constants, `&` and, `|` or, `!` not, `(` `)`.
+       Output: `ok <tree> <truth table over the 2^n assignments of a.. >` | `parse-error` |
+       `type-error`  (assignment m gives atom i the value of bit i of m).
+   r <base skeleton> <hex of the spelled text> <truth vectors a=0101,b=0011,...>
+       a re-spelling of the base skeleton: keywords in any case, any whitespace, redundant
+       parentheses; atoms are written as placeholder identifiers `x<letter>_<variant>`.
+       Model: lexer model + whitespace discipline + parser model on the spelled text.
+       Spec: intended reading of the *base* skeleton.  Output `ok - <bits over the rows>` | …
+   x <hex of a damaged spelling> <truth vectors>
+       model as for `r`; the spec has no opinion (`any`). -/
+namespace StorageModel.Driver.C12
+open StorageModel.Driver StorageModel.C12
+
+def tokOfChar (ch : Char) : Option (Tok Nat) :=
+  if ch = '&' then some (.op .and)
+  else if ch = '|' then some (.op .or)
+  else if ch = '!' then some .not
+  else if ch = '(' then some .lp
+  else if ch = ')' then some .rp
+  else if ch = 'T' then some (.atom (.const true))
+  else if ch = 'F' then some (.atom (.const false))
+  else if 'a' ≤ ch ∧ ch ≤ 'z' then some (.atom (.sym (ch.toNat - 'a'.toNat)))
+  else none
+
+def toksOfString (s : String) : Option (List (Tok Nat)) :=
+  s.toList.mapM tokOfChar
+
+def isBoolSym (i : Nat) : Bool := i != 25
+
+def showAtom : Atom Nat → String
+  | .sym i => String.singleton (Char.ofNat ('a'.toNat + i))
+  | .const true => "T"
+  | .const false => "F"
+
+def showT : T Nat → String
+  | .atom a => showAtom a
+  | .not e => "!(" ++ showT e ++ ")"
+  | .and l r => "&(" ++ showT l ++ "," ++ showT r ++ ")"
+  | .or l r => "|(" ++ showT l ++ "," ++ showT r ++ ")"
+
+def envOf (m : Nat) (i : Nat) : Bool := (m >>> i) % 2 == 1
+
+def truthTable (n : Nat) (t : T Nat) : String :=
+  bits ((List.range (2 ^ n)).map fun m => t.eval (envOf m))
+
+def showRes (n : Nat) : Res Nat → String
+  | .parseError => "parse-error"
+  | .typeError => "type-error"
+  | .ok t => "ok " ++ showT t ++ " " ++ truthTable n t
+
+/-- truth vectors `a=0101,b=0011` → env per row -/
+def parseVecs (s : String) : List (Nat × List Bool) :=
+  (s.splitOn ",").filterMap fun item =>
+    match item.toList with
+    | ch :: '=' :: bs => some (ch.toNat - 'a'.toNat, bs.map (· == '1'))
+    | _ => none
+
+def rowEnv (vecs : List (Nat × List Bool)) (row : Nat) (i : Nat) : Bool :=
+  match vecs.lookup i with
+  | some v => v.getD row false
+  | none => false
+
+def numRows (vecs : List (Nat × List Bool)) : Nat :=
+  match vecs with
+  | (_, v) :: _ => v.length
+  | [] => 1
+
+def showRows (vecs : List (Nat × List Bool)) : Res Nat → String
+  | .parseError => "parse-error"
+  | .typeError => "type-error"
+  | .ok t => "ok - " ++ bits ((List.range (numRows vecs)).map fun r => t.eval (rowEnv vecs r))
+
+/-- placeholder identifier `x<letter>_<variant>` → atom index; any other word is one of the
+    harness's extra symbols (boolean, false in every row): index 99 -/
+def placeholder (w : List Char) : Option Nat :=
+  match w with
+  | ['x', ch, '_', _] => if 'a' ≤ ch ∧ ch ≤ 'z' then some (ch.toNat - 'a'.toNat) else some 99
+  | _ => some 99
+
+def mapAtoms (ts : List (Tok (List Char))) : Option (List (Tok Nat)) :=
+  ts.mapM fun t =>
+    match t with
+    | .atom (.sym w) => (placeholder w).map fun i => .atom (.sym i)
+    | .atom (.const b) => some (.atom (.const b))
+    | .op o => some (.op o)
+    | .not => some .not
+    | .lp => some .lp
+    | .rp => some .rp
+
+partial def step (line : String) : String :=
+  match splitSp line with
+  | ["k", n, sk] =>
+    match toksOfString sk with
+    | some ts => showRes n.toNat! (query Generated.boolListener Generated.boolExprParser isBoolSym ts)
+    | none => "bad-case"
+  | ["x", spelled, vecs] => step ("r - " ++ spelled ++ " " ++ vecs)
+  | ["r", _base, spelled, vecs] =>
+    match StorageModel.Bytes.ofHex spelled with
+    | some bs =>
+      let chars := bs.map fun b => Char.ofNat b.toNat
+      let vs := parseVecs vecs
+      match lexSkeleton Generated.keywords chars with
+      | none => "parse-error"
+      | some ts =>
+        match mapAtoms ts with
+        | none => "parse-error"
+        | some ts' => showRows vs (query Generated.boolListener Generated.boolExprParser isBoolSym ts')
+    | none => "bad-case"
+  | _ => "bad-case"
+
+def specStep (line : String) : String :=
+  match splitSp line with
+  | ["k", n, sk] =>
+    match toksOfString sk with
+    | some ts => showRes n.toNat! (specQuery isBoolSym ts)
+    | none => "bad-case"
+  | ["x", _, _] => "any"
+  | ["r", base, _spelled, vecs] =>
+    match toksOfString base with
+    | some ts => showRows (parseVecs vecs) (specQuery isBoolSym ts)
+    | none => "bad-case"
+  | _ => "bad-case"
 
 def run (spec : Bool) : IO Unit := forEachLine (if spec then specStep else step)
 
